@@ -1,6 +1,7 @@
 package checks
 
 import (
+	"encoding/json"
 	"fmt"
 	"math/rand"
 	"regexp"
@@ -27,6 +28,29 @@ func totalityPath(c *gosym.Ctx, files map[string]gosym.Str, main string) totOutc
 		c.FS.AddFile("/work/"+p, s)
 	}
 	mountStd(c)
+	// concrete files are remembered so that a path ending in a budget/depth overrun can be replayed natively
+	conc := map[string]string{}
+	allConc := true
+	for p, s := range files {
+		g, ok := s.Go()
+		if !ok {
+			allConc = false
+			break
+		}
+		conc[p] = g
+	}
+	if allConc {
+		if b, err := json.Marshal(conc); err == nil {
+			c.Note("files:" + string(b))
+		}
+	}
+	c.ProbeFn = func(m map[string]uint64) interface{} {
+		out := totOutcome{Kind: "probe", What: "the engine cannot interpret the real code on this path", Class: "C13.native-probe", Main: main, Target: "bash", Files: map[string]string{}}
+		for p, s := range files {
+			out.Files[p] = ModelStr(s, m)
+		}
+		return out
+	}
 	res := totOutcome{Kind: "ok-error", Main: main}
 	for _, target := range []string{"bash", "batch"} {
 		var script, errText gosym.Str
@@ -121,11 +145,21 @@ func CheckC13(r *Run) int {
 	quick := r.Tier == "quick"
 	rng := rand.New(rand.NewSource(r.Seed))
 	okScript, okErr := 0, 0
-	var bads []totOutcome
+	var bads, hangs, probeTot []totOutcome
 	onPath := func(pr *gosym.PathResult) {
 		switch pr.End {
 		case "budget", "depth":
-			// hang candidate: needs the concrete files; the harness stores them in Notes
+			for _, n := range pr.Notes {
+				if strings.HasPrefix(n, "files:") && len(hangs) < 6 {
+					files := map[string]string{}
+					if json.Unmarshal([]byte(n[6:]), &files) == nil {
+						hangs = append(hangs, totOutcome{Kind: "bad", Class: "C13.does-not-terminate", Main: "main.tsh", Target: "bash", Files: files, What: "instruction/call-depth budget exceeded (" + pr.End + ")"})
+					}
+				}
+			}
+		}
+		if pb, ok := pr.Probe.(totOutcome); ok && len(probeTot) < 300 {
+			probeTot = append(probeTot, pb)
 		}
 		o, ok := pr.Ret.(totOutcome)
 		if !ok {
@@ -253,11 +287,25 @@ func CheckC13(r *Run) int {
 	for _, s := range r.Stats {
 		hang += s.Inconclusive["budget"] + s.Inconclusive["depth"]
 	}
-	if hang > 0 {
-		// the import harness is the only one that can recurse: replay the two-file cycle natively
-		o := totOutcome{Class: "C13.import-cycle-unbounded-recursion", Main: "main.tsh", Target: "bash",
-			Files: map[string]string{"main.tsh": "import (\n\ta \"a.tsh\"\n)\nprint(1)\n", "a.tsh": "import (\n\tm \"main.tsh\"\n)\nprint(2)\n"}, What: fmt.Sprintf("%d paths exceeded the call-depth/instruction budget", hang)}
-		r.handleTot(o)
+	sort.SliceStable(probeTot, func(i, j int) bool { return fmt.Sprint(probeTot[i].Files) < fmt.Sprint(probeTot[j].Files) })
+	for i, pb := range probeTot {
+		if i >= 80 {
+			break
+		}
+		if confirmed, what := confirmTotality(r, pb); confirmed {
+			pb.What = what
+			pb.Class = "C13.native-probe:" + firstWords(what, 6)
+			bads = append(bads, pb)
+		}
+	}
+	flush()
+	r.Cov("paths_decided_by_native_probe_only", min(len(probeTot), 80))
+	sort.SliceStable(hangs, func(i, j int) bool { return len(fmt.Sprint(hangs[i].Files)) < len(fmt.Sprint(hangs[j].Files)) })
+	for i, h := range hangs {
+		if i >= 3 {
+			break
+		}
+		r.handleTot(h)
 	}
 	r.Cov("states", okScript+okErr)
 	r.Cov("accepted_paths", okScript)
@@ -274,4 +322,12 @@ func CheckC13(r *Run) int {
 	r.Assume("os/filepath/sha256 are modelled by a virtual file system; read errors other than 'file missing' are not injected")
 	_ = sym.Sat
 	return r.Finish("model_checking")
+}
+
+func firstWords(s string, n int) string {
+	f := strings.Fields(s)
+	if len(f) > n {
+		f = f[:n]
+	}
+	return strings.Join(f, "_")
 }
